@@ -1,3 +1,7 @@
+#[cfg(feature = "verif")]
+#[allow(unused_imports)]
+use qbice_verif_rt::{tokio, parking_lot};
+
 use std::{
     collections::{HashMap, HashSet},
     hash::{BuildHasher, Hash},
